@@ -29,5 +29,5 @@ PROPS = {
     "C06": P("appmon", shards=(6, 16), floor=(10, 10)),
     "C04": P("pure", shards=(8, 16), floor=(20, 20)),
     "C20": P("appmon", shards=(6, 16), floor=(30, 30)),
-    "C19": P("appmon", shards=(2, 4), floor=(10, 10), watchdog=(2400, 14400), race={"quick": 1, "thorough": 2}, skew=True),
+    "C19": P("appmon", shards=(3, 4), floor=(10, 10), watchdog=(2400, 14400), race={"quick": 1, "thorough": 2}, skew=True),
 }
